@@ -165,7 +165,12 @@ func xwNewWorld(s xwScn) *xwWorld {
 			u.SetLabels(map[string]string{"crossplane.io/composite": xwXRName, "crossplane.io/claim-name": "", "crossplane.io/claim-namespace": ""})
 			u.SetOwnerReferences([]metav1.OwnerReference{{APIVersion: xwGroup + "/v1", Kind: xwXRGVK.Kind, Name: xwXRName, UID: types.UID(w.XRUID), Controller: &tr, BlockOwnerDeletion: &tr}})
 		case "other":
-			u.SetOwnerReferences([]metav1.OwnerReference{{APIVersion: xwGroup + "/v1", Kind: xwXRGVK.Kind, Name: "someone-else", UID: xwForeignUID, Controller: &tr, BlockOwnerDeletion: &tr}})
+			// the foreign controller is another XR of the same kind or an object of another kind
+			fk, fv := xwXRGVK.Kind, xwGroup+"/v1"
+			if o.Content%2 == 1 {
+				fk, fv = "Deployment", "apps/v1"
+			}
+			u.SetOwnerReferences([]metav1.OwnerReference{{APIVersion: fv, Kind: fk, Name: "someone-else", UID: xwForeignUID, Controller: &tr, BlockOwnerDeletion: &tr}})
 		}
 		_ = unstructured.SetNestedField(u.Object, int64(o.Content), "spec", "content")
 		if o.Fin || o.Deleting {
